@@ -4,6 +4,8 @@ import (
 	"crypto/ed25519"
 	"encoding/pem"
 	"fmt"
+	bifrost_cli "github.com/aperturerobotics/bifrost/cli"
+	"github.com/aperturerobotics/cli"
 	"os"
 	"path/filepath"
 	"strings"
@@ -51,7 +53,7 @@ func init() {
 		ID: "C39", World: "DISK",
 		New:        func() dsim.World { return &c39World{} },
 		Cfg:        dsim.Config{MaxChaosSteps: 40, MaxStableSteps: 50, Horizon: time.Second},
-		Real:       []string{"keypem/keyfile.OpenOrWritePrivKey", "keypem.ParsePrivKeyPem / MarshalPrivKeyPem", "crypto key generation and (un)marshalling", "the real file system (scratch directory)"},
+		Real:       []string{"cli.EnvelopeArgs.RunUnseal / loadPrivKeys (the CLI path that relies on the key file)", "keypem/keyfile.OpenOrWritePrivKey", "keypem.ParsePrivKeyPem / MarshalPrivKeyPem", "crypto key generation and (un)marshalling", "the real file system (scratch directory)"},
 		Stub:       []string{"crash points are modelled on the file content (any prefix of the last write / empty / missing), not injected inside os.WriteFile: there is no file-system seam in the code"},
 		FaultKinds: []string{"fault:torn-write", "fault:lost-write", "fault:empty-file", "fault:bit-corruption", "fault:garbage", "fault:wrong-pem-type", "fault:pubkey-pem", "fault:path-is-directory", "fault:path-below-file", "fault:symlink-loop", "fault:dangling-symlink", "fault:name-too-long", "fault:write-fails", "fault:permission-denied"},
 		Notes:      []string{"no concurrency in this property: the schedule dimension is the order of loads, crashes and file-state faults"},
@@ -162,6 +164,33 @@ func (w *c39World) load() {
 	}
 }
 
+// c39NonKey: file states in which the path holds no usable private key (and is not missing).
+var c39NonKey = map[string]bool{"torn": true, "empty": true, "corrupt": true, "garbage": true, "wrong-pem-type": true, "pubkey-pem": true,
+	"directory": true, "below-regular-file": true, "symlink-loop": true, "name-too-long": true, "unreadable": true}
+
+// unseal runs the CLI path that relies on the key file (`envelope unseal --key <path>`,
+// anchored in cli/envelope.go) with the file in a non-key state. The input file does not
+// exist: a correct loader fails on the key (and names it) before the input is ever read.
+func (w *c39World) unseal() {
+	s := w.s
+	before := w.state
+	a := &bifrost_cli.EnvelopeArgs{InputPath: filepath.Join(w.root, "no-such-input"), OutputPath: filepath.Join(w.root, "out")}
+	a.KeyPaths = *cli.NewStringSlice(w.path)
+	err := a.RunUnseal(nil)
+	s.Logf("cli unseal with key file in state %s -> %v", before, err)
+	s.Count("done:cli-unseal")
+	if before == "torn" || before == "corrupt" {
+		// the damage may have left a complete key (e.g. only the final newline cut)
+		if k, kerr := keyfile.OpenOrWritePrivKey(nil, w.path); kerr == nil && k != nil {
+			return
+		}
+	}
+	if err == nil || !strings.Contains(err.Error(), "key") || !strings.Contains(err.Error(), filepath.Base(w.path)) {
+		w.fail(&dsim.Violation{Property: "C39", Rule: "non-key-file-treated-as-absent-key", Witness: "cli-unseal,file_state=" + before,
+			Detail: fmt.Sprintf("envelope unseal with --key pointing at a path in state %q went on without reporting the key file: %v", before, err)})
+	}
+}
+
 func (w *c39World) Actions(s *dsim.Sim, add func(dsim.Action)) {
 	if s.Phase == dsim.PhaseStable {
 		if w.ops < w.maxOps+1 {
@@ -174,6 +203,9 @@ func (w *c39World) Actions(s *dsim.Sim, add func(dsim.Action)) {
 	}
 	t := s.Tape
 	add(dsim.Action{Name: "3op:load", Weight: 10, Fire: func() { w.ops++; w.load() }})
+	if c39NonKey[w.state] {
+		add(dsim.Action{Name: "3op:cli-unseal", Weight: 4, Fire: func() { w.ops++; w.unseal() }})
+	}
 	set := func(name, fault string, wt int, f func()) {
 		add(dsim.Action{Name: "5flt:" + name, Weight: wt, Fault: true, Fire: func() {
 			w.ops++
